@@ -138,4 +138,32 @@ structure ProposalExec where
   writeGuardedByNoError : Bool   -- every `writeCache()` is inside `if err == nil { … }` after the loop
   deriving DecidableEq, Repr
 
+/-! ## the transaction pipeline (`baseapp.runTx`), statement by statement (round 4) -/
+
+/-- statement inside `if app.anteHandler != nil { … }` -/
+inductive AStep where
+  | branch                      -- `anteCtx, msCache = app.cacheTxContext(ctx, txBytes)`
+  | call (onBranch : Bool)      -- `newCtx, err := app.anteHandler(<ctx>, tx, …)`; onBranch: `<ctx>` is the branched context
+  | returnIfErr                 -- `if err != nil { … return … err }` (no Write inside)
+  | write                       -- `msCache.Write()`
+  | skip (src : String)         -- touches none of the stores (events, gas numbers, context bookkeeping)
+  | other (src : String)
+  deriving Repr
+
+/-- top-level statement of `runTx` -/
+inductive TStep where
+  | rejectIfEnv (id : Nat) (src : String)
+      -- an early `return … err` decided by the environment, before anything is written (tx decoding, block gas left,
+      -- a message without a handler)
+  | validateBasic               -- `if err := validateBasicTxMsgs(msgs); err != nil { return … }`
+  | ante (steps : List AStep)   -- `if app.anteHandler != nil { … }`
+  | branchMsgs                  -- `runMsgCtx, msCache := app.cacheTxContext(ctx, txBytes)`
+  | runMsgs (onBranch : Bool)   -- `if err == nil { result, err = app.runMsgs(<ctx>, …) }`
+  | post (onBranch : Bool)      -- `if app.postHandler != nil { … return on its error … }` on the message branch, no Write inside
+  | writeIfOk                   -- `if err == nil { … msCache.Write() … }`
+  | writeAlways                 -- `msCache.Write()` outside such a guard
+  | skip (src : String)
+  | other (src : String)
+  deriving Repr
+
 end FxVerif.Model.C16
